@@ -12,7 +12,8 @@
    (correspondence + monitor + ASan). *)
 From Coq Require Import List ZArith.
 Require Import Verif.gen.Consts_trie Verif.MapTrieModel Verif.MapTrieSpec Verif.MapTrieGuards Verif.MapTrieRefuted
-               Verif.MapTrieSafe2 Verif.MapTrieSafe4 Verif.MapTrieSafe5 Verif.MapTrieSafe6 Verif.MapTrieSafe8.
+               Verif.MapTrieProofs Verif.MapTrieView Verif.MapTrieSafe2 Verif.MapTrieSafe4 Verif.MapTrieSafe5 Verif.MapTrieSafe6
+               Verif.MapTrieSafe8.
 Import ListNotations.
 
 (* a removed-but-parked key is still returned by get, and a put on it is lost when the iterator moves on *)
@@ -79,7 +80,8 @@ Print Assumptions C18T_split_of_prefix_root_repaired.
    reference and every iterator positioned on it; it holds initially and every operation keeps it *)
 Theorem C18T_iter_next_keeps_accounting : forall t h it, SafT t -> iters_get (t_iters t) h = Some it ->
   exists r it' kv evs, iter_next FX_ALL (t_root t) it = Ok (r, it', kv, evs) /\
-                       Saf r (iters_set (t_iters t) h it') (t_next t).
+                       Saf r (iters_set (t_iters t) h it') (t_next t) /\
+                       forall q, dview (obs_t r q) = dview (obs_t (t_root t) q).
 Proof. exact saf_iter_next. Qed.
 Print Assumptions C18T_iter_next_keeps_accounting.
 
